@@ -74,6 +74,7 @@ type EngCfg struct {
 	ShortLived        bool     // draw short lifespans so that expiry happens inside histories
 	ShortLivedHalf    bool     // ... in half of the cases
 	Mutate            func(c *fosite.Config)
+	MutateDraw        func(t *rapid.T, c *fosite.Config) // configuration choices that are part of the generated case
 }
 
 type Eng struct {
@@ -143,6 +144,9 @@ func NewEng(t *rapid.T, cfg EngCfg) *Eng {
 		c.PushedAuthorizeContextLifespan = e.parLife
 		if cfg.Mutate != nil {
 			cfg.Mutate(c)
+		}
+		if cfg.MutateDraw != nil {
+			cfg.MutateDraw(t, c)
 		}
 	}})
 	for _, id := range []string{"A", "B"} {
